@@ -41,7 +41,7 @@ import (
 type algStats struct {
 	Ops, Ceremonies, Batches, SignaturesChecked, SharesChecked, SubsetsChecked int
 	C07Schedules, C07Races, C11Scenarios                                       int
-	CraftedBatches, PartialsChecked, FaultySignerBatches                       int
+	CraftedBatches, PartialsChecked, FaultySignerBatches, AwayProposerBatches  int
 	C07Exhaustive                                                              string
 	Configs                                                                    []string
 	OutcomeHist                                                                map[string]int
@@ -66,6 +66,9 @@ type algRun struct {
 	// safetyOnly: the batch being checked had a faulty signer among the first t: nothing invalid may be stored or broadcast,
 	// but that every node ends up with a signature is not claimed (C07 speaks of slow signers, not of faulty ones)
 	safetyOnly bool
+	// skipNode: a node that is away (not polling) while the batch is signed: nothing is claimed about it (-1: nobody)
+	skipNode int
+	awayNode bool
 }
 
 func (a *algRun) emit(op, ob string) {
@@ -447,6 +450,9 @@ func (a *algRun) checkSignatures(c *cluster, round, batch string, secret kyber.S
 		}
 	}
 	for i, n := range c.nodes {
+		if a.awayNode && i == a.skipNode {
+			continue
+		}
 		stor, err := n.sigSvc.GetSignatures(&dto.DkgIdDTO{DkgID: round})
 		if err != nil {
 			a.mon(fmt.Sprintf("C07 store %s: node %d: %v", tag, i, err))
@@ -628,6 +634,45 @@ func runAlgDiff(outDir string, seed int64, tier string) {
 				}
 				for k, sc := range scheds {
 					a.runSchedule(c, round, secret, gk, sc, k, tag)
+				}
+				// C07: "every node that keeps polling": the proposer of a batch goes away right after proposing (its node neither
+				// polls nor answers); the others, t of them at least, sign - every node that IS polling ends up with the signatures,
+				// whoever proposed. Then the proposer comes back and catches up.
+				if cf.t < cf.n {
+					away := a.rng.Intn(cf.n)
+					c.pollAllNodes()
+					from := len(c.boardMessages())
+					payload := []byte(fmt.Sprintf("proposed by %d, who then went away", away))
+					if err := c.proposeData(c.nodes[away], round, map[string][]byte{"away.bin": payload}); err == nil {
+						pollOthers := func() {
+							for i, nd := range c.nodes {
+								if i != away {
+									c.pollOnce(nd, 0)
+								}
+							}
+						}
+						pollOthers()
+						if ids := c.newBatches(from); len(ids) == 1 {
+							for _, i := range a.rng.Perm(cf.n) {
+								if i != away {
+									c.answerBatch(i, ids[0])
+									pollOthers()
+								}
+							}
+							pollOthers()
+							pollOthers()
+							a.st.AwayProposerBatches++
+							a.awayNode, a.skipNode = true, away
+							a.checkSignatures(c, round, ids[0], secret, gk, []proposedMsg{{"away.bin", payload}}, fmt.Sprintf("%s batch whose proposer %d stopped polling after proposing", tag, away))
+							a.awayNode = false
+							// back again
+							c.pollAllNodes()
+							c.answerBatch(away, ids[0])
+							c.pollAllNodes()
+							c.pollAllNodes()
+							a.checkSignatures(c, round, ids[0], secret, gk, []proposedMsg{{"away.bin", payload}}, fmt.Sprintf("%s batch whose proposer %d was away, after its return", tag, away))
+						}
+					}
 				}
 				// C01, safety with a faulty signer (last in the ceremony: the round may not recover from it): the first signer's
 				// machine result is altered on its way to its node - its partial signatures are not signatures of these payloads
